@@ -78,7 +78,8 @@ META = {
         "result is only tested are ignored - and the Jinja environment used for substitutions (built in the function, a helper or "
         "an instance attribute or a module constant; plain or sandboxed) has no autoescape/finalize; removing exactly a leading "
         "byte order mark is not a change of the text, and the included file's text must pass such a removal (or be read as "
-        "utf-8-sig), as docutils' input layer does for the document itself. "
+        "utf-8-sig), as docutils' input layer does for the document itself; every statement that takes a ':'-line off the front of "
+        "the content into the option block is guarded by a test on that line which excludes a line opening a ':::' fence. "
         "R7 rule lookups: a test '<rule>' in md.get_active_rules()[<chain>] names a rule that markdown-it or a configured plugin "
         "registers on that chain (catalogue read from the library sources); a rule looked up in the wrong chain is a constant test. "
         "R8 input limits: a per-line limit that the docutils front end checks on the document text (settings.line_length_limit) "
@@ -2315,6 +2316,20 @@ def _destination(call: ast.Call, sinks: list[ast.AST]) -> tuple[str, set[str]]:
     return "dropped", set()
 
 
+def _colon_prefix_test(t: ast.AST) -> str | None:
+    """':' / '::' / ':::' for ``x.startswith("<colons>")``; ':(?!::)' for a regex match on a pattern that requires a colon
+    not followed by two more; None otherwise."""
+    if isinstance(t, ast.Call) and isinstance(t.func, ast.Attribute) and t.func.attr == "startswith" and len(t.args) == 1 and isinstance(t.args[0], ast.Constant) and isinstance(t.args[0].value, str):
+        v = t.args[0].value
+        if v and set(v) == {":"} and len(v) <= 3:
+            return v
+    if isinstance(t, ast.Call) and isinstance(t.func, ast.Attribute) and t.func.attr in ("match", "fullmatch", "search"):
+        for a in t.args:
+            if isinstance(a, ast.Constant) and isinstance(a.value, str) and ":(?!::)" in a.value:
+                return ":(?!::)"
+    return None
+
+
 def _strips_bom(n: ast.AST) -> bool:
     """``x.removeprefix("\\ufeff")`` / ``x.lstrip("\\ufeff")``: drops nothing but a leading byte order mark."""
     return (
@@ -2526,6 +2541,79 @@ def r6_text_conserved(corpus: Corpus, rep: Report, tier: str):
     of = _dataclass_fields(oc)
     if None is _conserved_to_sink(rep, pdo, {_pos_params(pdo)[0]}, lambda f: ctor_field_args(f, oc.fq, 0, of[0]), "the directive's content", "the body left after the option block"):
         raise Unsupported("_parse_directive_options: the body left after the option block not found (also not in helpers it returns through)")
+    # 1b. a line that opens a nested ``:::`` fence is body: every test that recognises an option line (':' prefix) on a
+    # line of the content also excludes the ':::' prefix - whatever idiom takes the lines (pop loop, index scan + slices,
+    # a predicate helper)
+    scan_scope = {pdo.fq: pdo}
+    for x in pdo.local_nodes():
+        if isinstance(x, ast.Call):
+            h_ = _package_callee(x, pdo)
+            if h_ is not None and not h_.is_lambda and h_.module.name == pdo.module.name and _line_splitter(h_) is None:
+                scan_scope.setdefault(h_.fq, h_)
+
+    def prefix_tests(e: ast.AST, f: FunctionInfo, depth: int = 0) -> list[tuple[str, ast.AST]]:
+        """colon-prefix tests inside ``e`` - directly, or inside a package predicate it calls on the line."""
+        out_ = []
+        for x in ast.walk(e):
+            v = _colon_prefix_test(x)
+            if v is not None:
+                out_.append((v, x))
+            elif isinstance(x, ast.Call) and depth < 2:
+                h2 = _package_callee(x, f)
+                if h2 is not None and not h2.is_lambda and h2.fq != f.fq:
+                    for y in h2.local_nodes():
+                        if isinstance(y, ast.Return) and y.value is not None:
+                            for e2 in _def_closure([y.value], h2):
+                                out_ += prefix_tests(e2, h2, depth + 1)
+        return out_
+
+    n_take = 0
+    for f_ in scan_scope.values():
+        fcar = _forward(f_, set(_pos_params(f_)[:1]))
+        line_lists = {nm for names, val in _bindings(f_) for nm in names if isinstance(val, ast.Call) and _splits_lines(val, f_) is not None and (_names_in(val) & fcar)}
+        if not line_lists:
+            continue
+
+        def about_line(t: ast.AST, f_=f_, line_lists=line_lists) -> bool:
+            # the test looks at a line of the list (an element, a loop/comprehension variable over it, a local bound from
+            # one), not at the content as a whole
+            for x in ast.walk(t):
+                if isinstance(x, ast.Name):
+                    if _names_in(x) & line_lists:
+                        return True
+                    if x.id not in f_.params and _local_defs(f_, x.id) and all(_names_in(v) & line_lists for _, v in _local_defs(f_, x.id)):
+                        return True
+            return False
+
+        tests: list[ast.AST] = []
+        for n in f_.local_nodes():
+            if isinstance(n, (ast.If, ast.While, ast.IfExp)):
+                tests.append(n.test)
+            elif isinstance(n, ast.comprehension):
+                tests += n.ifs
+        for t in tests:
+            if not about_line(t):
+                continue
+            pts = prefix_tests(t, f_)
+            if not any(v == ":" for v, _ in pts):
+                continue
+            n_take += 1
+            k = f"{pdo.fq}|option-line consumption stops at a line opening a ':::' fence"
+            # an exclusion written directly in this test must itself look at the line; one inside the predicate helper does
+            excl = [x for v, x in pts if v in ("::", ":::", ":(?!::)") and (about_line(x) or not any(x is y for y in ast.walk(t)))]
+            if excl:
+                rep.ok("C06.R6", k, f_.module.site(t), f"`{short(t, 50)}` also tests {short(excl[0], 40)}")
+            else:
+                rep.violation(
+                    "C06.R6",
+                    k,
+                    f_.module.site(t),
+                    f"`{short(t, 70)}` recognises every line that starts with ':' as an option line; nothing in the test excludes a line starting with ':::': a nested colon fence that "
+                    "directly follows the options (`:class: x` then `:::{tip}`) is consumed into the option block, so the nested directive vanishes from the body although the same text at top level renders it",
+                )
+    if n_take < 1:
+        raise Unsupported("_parse_directive_options: no test recognising ':key:' option lines on the lines of the content was found")
+
     # 2. body lines
     pdt = corpus.func("parsers.directives:parse_directive_text")
     res = corpus.cls("parsers.directives:DirectiveParsingResult")
@@ -2627,7 +2715,19 @@ def r6_text_conserved(corpus: Corpus, rep: Report, tier: str):
         if any(is_tmpl(x) for x in ast.walk(val)):
             seeds |= names
     _text_conserved(rep, sub, seeds, nrt_text_args(sub), "the substitution's value", "the nested parse", source_pred=is_tmpl)
-    is_env = lambda c, f: isinstance(c, ast.Call) and f.module.resolve(dotted(c.func) or "") in ENV_CLASSES
+    def env_class(c: ast.AST, f: FunctionInfo, depth: int = 0):
+        """'library' for a jinja2 environment class, the package ClassInfo for a subclass of one, else None."""
+        if not isinstance(c, ast.Call):
+            return None
+        full = f.module.resolve(dotted(c.func) or "")
+        if full in ENV_CLASSES:
+            return "library"
+        ci_ = corpus.find_class(full)
+        if ci_ is not None and any(b in ENV_CLASSES or (corpus.find_class(b) is not None and any(bb in ENV_CLASSES for bb in corpus.external_bases(corpus.find_class(b)))) for b in ci_.bases):
+            return ci_
+        return None
+
+    is_env = lambda c, f: env_class(c, f) is not None
     # the function itself, the package helpers it calls (two levels), and instance attributes they read
     scope = {sub.fq: sub}
     for _ in range(2):
@@ -2661,6 +2761,16 @@ def r6_text_conserved(corpus: Corpus, rep: Report, tier: str):
                 bad.append(f"autoescape={unparse(kw.value)} HTML-escapes < > & ' \" in every substituted value")
             if kw.arg == "finalize":
                 bad.append(f"finalize={short(kw.value, 40)} post-processes every substituted value")
+        ec = env_class(c, envf)
+        if ec is not None and ec != "library":
+            # a subclass defined in the package: it must not switch the output transformations on itself
+            for st_ in ec.node.body:
+                tgt_names = [t.id for t in getattr(st_, "targets", []) if isinstance(t, ast.Name)] + ([st_.target.id] if isinstance(st_, ast.AnnAssign) and isinstance(st_.target, ast.Name) else [])
+                if any(nm in ("autoescape", "finalize") for nm in tgt_names) or (isinstance(st_, ast.FunctionDef) and st_.name in ("finalize", "autoescape", "__init__")):
+                    what_ = tgt_names[0] if tgt_names else st_.name
+                    if what_ == "__init__":
+                        raise Unsupported(f"{ec.name}.__init__ overrides the jinja2 environment constructor: options not traceable")
+                    bad.append(f"class {ec.name} sets `{what_}` for every substitution environment")
         if len(c.args) > 0:
             raise Unsupported("render_substitution: positional Environment arguments")
         if bad:
@@ -3121,6 +3231,17 @@ def mutants(corpus: Corpus):
     cmp_ = find_node(dparse, lambda n: isinstance(n, ast.Compare) and any(isinstance(x, ast.Call) and dotted(x.func) == "len" for x in [n.left] + n.comparators) and any(isinstance(x, ast.Attribute) and x.attr == "line_length_limit" for x in [n.left] + n.comparators))
     lim = next((x for x in ([cmp_.left] + cmp_.comparators) if isinstance(x, ast.Attribute)), None) if cmp_ is not None else None
     add("c06-top-level-checks-another-limit", "C06.R8", dmod, lim, f"{_seg(dmod, lim.value)}.max_line_length" if lim is not None else "", "max_line_length")
+
+    # class: one of the cooperating sites that keep a nested ':::' fence out of the option block is weakened
+    loop_if = find_node(pdo, lambda n: isinstance(n, ast.If) and isinstance(n.test, ast.BoolOp) and isinstance(n.test.op, ast.Or) and any(_colon_prefix_test(v) == ":::" for v in n.test.values) and any(isinstance(x, ast.Break) for x in n.body))
+    if loop_if is not None:
+        keep = [v for v in loop_if.test.values if _colon_prefix_test(v) != ":::"]
+        add("c06-option-loop-takes-fence-opener", "C06.R6", dm, loop_if.test, " or ".join(_seg(dm, v) for v in keep), "option-line consumption stops")
+        fence_t = next(v for v in loop_if.test.values if _colon_prefix_test(v) == ":::")
+        add("c06-option-loop-excludes-four-colons-only", "C06.R6", dm, fence_t.args[0], '"::::"', "option-line consumption stops")
+        add("c06-option-loop-tests-whole-content-for-fence", "C06.R6", dm, fence_t, f'{_pos_params(pdo)[0]}.startswith(":::")', "option-line consumption stops")
+    else:
+        out.append(("c06-option-loop-takes-fence-opener", "the loop test excluding ':::' lines was not found"))
 
     # ---- R5
     run = base.func(R + "run_directive")
